@@ -118,6 +118,16 @@ def run_sqlite(case, ctx, d):
         kw["crs_lonlat"] = case["crs_lonlat"]
     if case.get("crs_xy"):
         kw["crs_xy"] = case["crs_xy"]
+    prior = case.get("prior")
+    if prior:
+        # the file name already holds another map (other metric flag / projection settings, some content): constructing the map
+        # again re-creates the tables, so what is stored afterwards must be the second map only
+        m0 = pk(SqliteMap, "stored", use_latlon=prior["latlon"], dir=d, **prior.get("kw", {}))
+        for lab, loc in prior["nodes"]:
+            pk(m0.add_node, lab, tuple(loc))
+        if len(prior["nodes"]) >= 2:
+            pk(m0.add_edge, prior["nodes"][0][0], prior["nodes"][1][0])
+        m0.db.close()
     m = pk(SqliteMap, "stored", use_latlon=latlon, dir=d, **kw)
     nodes, edges = {}, []
     # what still lacks an index row: nodes added with no_index; edges whose every add_edge call so far said no_index
@@ -422,6 +432,12 @@ def _case(draw, tier):
         case["crs_xy"] = draw(st.sampled_from(["EPSG:31370", "EPSG:3857"]))
     if draw(st.integers(0, 5)) == 0:
         case["crs_lonlat"] = "EPSG:4258"
+    if backend == "sqlite" and draw(st.integers(0, 3)) == 0:
+        pk_ = {}
+        if draw(st.booleans()):
+            pk_["crs_xy"] = "EPSG:32631"
+        case["prior"] = {"latlon": draw(st.sampled_from([not latlon, not latlon, latlon])), "kw": pk_,
+                         "nodes": [[900 + i, point()] for i in range(draw(st.integers(0, 3)))]}
     if backend == "pickle" and len(have_edges) >= 2 and draw(st.booleans()):
         case["linked"] = [[have_edges[0], have_edges[1]]]
         # the linked edges must exist whenever neighbours are queried: keep only the final reopen
